@@ -924,10 +924,11 @@ func c15Bridge(r *Run, snap *slog.VerifRegistry, L, sev int, dbg bool, msg []byt
 	// the level under test is set afterwards - the bridge follows the logger, it does not remember
 	late := (L+sev)%2 == 0
 	l0 := L
-	if late {
-		l0 = 2
-		if L == 2 {
-			l0 = 6
+	if late { // Off, Error or Trace at the time the bridge is made (whichever differs from the level under test, in turn)
+		cands := []int{7, 2, 6}
+		l0 = cands[(sev/2)%3]
+		if l0 == L {
+			l0 = cands[(sev/2+1)%3]
 		}
 	}
 	l := c15Logger(l0)
